@@ -14,7 +14,7 @@
    each deviation is a realistic way of getting the mechanism wrong and must be caught by the
    properties below (sensitivity of the specification, see MC_FairQueue_*.cfg).              *)
 EXTENDS Naturals, Sequences, FiniteSets, TLC
-CONSTANTS Keys, MaxItems, MaxTicket, MaxStale, MaxExh, AllowRemove, Dev
+CONSTANTS Keys, MaxItems, MaxTicket, MaxStale, MaxExh, MaxReins, AllowRemove, Dev
 
 VARIABLES
   heap,      \* set of <<ticket, key, n>> ready events; n disambiguates duplicates
@@ -40,11 +40,17 @@ VARIABLES
   npend,     \* Pending answers so far in the current call of poll_next
   exh,       \* the receiver task's cooperative budget is spent (environment)
   nexh,      \* number of budget exhaustions so far
-  had        \* had[k]: tickets of the StreamWakers k's source was ever polled with (it may keep clones of them)
+  had,       \* had[k]: tickets of the StreamWakers k's source was ever polled with (it may keep clones of them)
+  conn,      \* conn[k]: generation of the connection currently registered under key k (a reconnect under the same identity
+             \* while the old connection is half-open supersedes it: QueueInner::insert with a key that is still present)
+  sgen,      \* sgen[k]: generation of the stream object stored in the map under k
+  cgen,      \* generation of the checked-out stream
+  nreins     \* number of superseding inserts so far
 
 vars == <<heap, streams, counter, wslot, wcur, pc, cur, avail, left, closed, reg, fire, notified, joined,
-          removed, delivered, wait, stale, live, npend, exh, nexh, had>>
-xv == <<live, npend, exh, nexh, had>>
+          removed, delivered, wait, stale, live, npend, exh, nexh, had, conn, sgen, cgen, nreins>>
+gv == <<conn, sgen, cgen, nreins>>
+xv == <<live, npend, exh, nexh, had, gv>>
 
 \* waking the waker in the slot reaches the receiver only if it belongs to the current future
 Wakes == wslot /\ wcur
@@ -58,6 +64,7 @@ Init ==
   /\ reg = [k \in Keys |-> 0] /\ fire = [k \in Keys |-> FALSE] /\ notified = FALSE /\ joined = {}
   /\ removed = {} /\ delivered = [k \in Keys |-> 0] /\ wait = [k \in Keys |-> 0] /\ stale = 0
   /\ live = [k \in Keys |-> 0] /\ npend = 0 /\ exh = FALSE /\ nexh = 0 /\ had = [k \in Keys |-> {}]
+  /\ conn = [k \in Keys |-> 0] /\ sgen = [k \in Keys |-> 0] /\ cgen = 0 /\ nreins = 0
 
 \* ---- other threads ---------------------------------------------------------------------------
 Insert(k) ==       \* QueueInner::insert under the lock (peer_connected)
@@ -68,7 +75,21 @@ Insert(k) ==       \* QueueInner::insert under the lock (peer_connected)
   /\ live' = [live EXCEPT ![k] = counter + 1]                                        \* push_event
   /\ counter' = counter + 1
   /\ notified' = IF "insert_no_wake" \in Dev THEN notified ELSE (notified \/ Wakes)  \* wake_by_ref, slot kept
-  /\ UNCHANGED <<wslot, pc, cur, avail, left, closed, reg, fire, removed, delivered, wait, stale, npend, exh, nexh, had>>
+  /\ UNCHANGED <<wslot, pc, cur, avail, left, closed, reg, fire, removed, delivered, wait, stale, npend, exh, nexh, had, gv>>
+  /\ UNCHANGED wcur
+
+Reinsert(k) ==     \* QueueInner::insert for a key that is still registered: a newer connection supersedes the old one
+  /\ nreins < MaxReins /\ k \in joined \ removed /\ counter < MaxTicket /\ ~closed[k]
+  /\ nreins' = nreins + 1
+  /\ conn' = [conn EXCEPT ![k] = @ + 1]
+  /\ streams' = streams \cup {k} /\ sgen' = [sgen EXCEPT ![k] = conn[k] + 1]       \* HashMap::insert replaces (and drops) the old stream
+  /\ avail' = [avail EXCEPT ![k] = 0]                                               \* what the old connection had not delivered is gone with it
+  /\ reg' = [reg EXCEPT ![k] = 0] /\ fire' = [fire EXCEPT ![k] = FALSE]              \* so is the waker registered with its transport
+  /\ IF "reinsert_no_event" \in Dev THEN UNCHANGED <<heap, live, counter>>
+     ELSE heap' = heap \cup {<<counter, k, 0>>} /\ live' = [live EXCEPT ![k] = counter + 1] /\ counter' = counter + 1
+  /\ notified' = (notified \/ Wakes)
+  /\ wait' = [wait EXCEPT ![k] = 0]                                                 \* a new connection: its waiting starts now
+  /\ UNCHANGED <<wslot, pc, cur, left, closed, joined, removed, delivered, stale, npend, exh, nexh, had, cgen>>
   /\ UNCHANGED wcur
 
 Produce(k) ==      \* bytes of one more complete message arrive on k's transport
@@ -99,7 +120,7 @@ Fire(k) ==         \* StreamWaker::wake_by_ref, under the queue lock
   /\ fire' = [fire EXCEPT ![k] = FALSE]
   /\ notified' = (notified \/ Wakes)
   /\ wslot' = IF "waker_not_taken" \in Dev THEN wslot ELSE FALSE      \* waker.take()
-  /\ UNCHANGED <<streams, counter, pc, cur, avail, left, closed, joined, removed, delivered, wait, stale, npend, exh, nexh, had>>
+  /\ UNCHANGED <<streams, counter, pc, cur, avail, left, closed, joined, removed, delivered, wait, stale, npend, exh, nexh, had, gv>>
   /\ UNCHANGED wcur
 
 \* a source wakes an old clone of a StreamWaker again (late, duplicate or spurious wake-up: allowed by the waker
@@ -110,7 +131,7 @@ StaleFireT(k, t) ==
   /\ stale' = stale + 1
   /\ notified' = (notified \/ Wakes)
   /\ wslot' = FALSE
-  /\ UNCHANGED <<streams, counter, pc, cur, avail, left, closed, reg, fire, joined, removed, delivered, wait, npend, exh, nexh, had>>
+  /\ UNCHANGED <<streams, counter, pc, cur, avail, left, closed, reg, fire, joined, removed, delivered, wait, npend, exh, nexh, had, gv>>
   /\ UNCHANGED wcur
 StaleFire(k) == \E t \in had[k] : StaleFireT(k, t)
 
@@ -118,7 +139,7 @@ Exhaust ==         \* the receiver task's cooperative budget runs out in the mid
   /\ nexh < MaxExh /\ ~exh /\ pc \in {"l1", "poll", "l3"}
   /\ exh' = TRUE /\ nexh' = nexh + 1
   /\ UNCHANGED <<heap, streams, counter, wslot, wcur, pc, cur, avail, left, closed, reg, fire, notified, joined, removed,
-                 delivered, wait, stale, live, npend, had>>
+                 delivered, wait, stale, live, npend, had, gv>>
 
 Remove(k) ==       \* QueueInner::remove (peer_disconnected); only while k is not checked out
   /\ AllowRemove /\ k \in streams
@@ -133,7 +154,7 @@ Begin ==           \* application calls recv / executor re-polls after a wake
      \/ pc = "parked" /\ notified
   /\ pc' = "l1" /\ notified' = FALSE
   /\ npend' = 0 /\ exh' = FALSE                     \* a new poll of the task: fresh budget
-  /\ UNCHANGED <<heap, streams, counter, wslot, cur, avail, left, closed, reg, fire, joined, removed, delivered, wait, stale, live, nexh, had>>
+  /\ UNCHANGED <<heap, streams, counter, wslot, cur, avail, left, closed, reg, fire, joined, removed, delivered, wait, stale, live, nexh, had, gv>>
   /\ UNCHANGED wcur
 
 Cancel ==          \* the recv future is dropped while parked (select!, timeout, proxy); the next call has a new waker
@@ -155,12 +176,16 @@ L1 ==              \* first critical section of one loop iteration (pop_event di
                     /\ IF e[2] \in streams
                          THEN /\ streams' = streams \ {e[2]} /\ cur' = e /\ pc' = "poll"
                          ELSE /\ UNCHANGED <<streams, cur>> /\ pc' = "l1"
-  /\ UNCHANGED <<counter, avail, left, closed, reg, fire, notified, joined, removed, delivered, wait, stale, npend, exh, nexh, had>>
+  /\ cgen' = IF pc' = "poll" THEN sgen[cur'[2]] ELSE cgen
+  /\ UNCHANGED <<counter, avail, left, closed, reg, fire, notified, joined, removed, delivered, wait, stale, npend, exh, nexh, had, conn, sgen, nreins>>
 
 PollStream ==      \* stream polled outside the lock with StreamWaker(cur)
   /\ pc = "poll"
   /\ LET k == cur[2] IN
-     IF exh
+     IF cgen # conn[k]
+       THEN \* the stream of a superseded connection: open and silent for ever (its transport registers the waker, nobody wakes it)
+            /\ pc' = "l3" /\ UNCHANGED <<heap, live, notified, wslot, avail, reg, fire, cur>>
+     ELSE IF exh
        THEN \* budget spent: the transport wakes the waker it was polled with and answers Pending
             /\ WakePush(k, cur[1])
             /\ notified' = (notified \/ Wakes)
@@ -174,7 +199,7 @@ PollStream ==      \* stream polled outside the lock with StreamWaker(cur)
                    ELSE /\ reg' = [reg EXCEPT ![k] = cur[1] + 1] /\ fire' = [fire EXCEPT ![k] = FALSE]
                         /\ pc' = "l3" /\ UNCHANGED <<avail, cur>>
   /\ had' = IF MaxStale > 0 THEN [had EXCEPT ![cur[2]] = @ \cup {cur[1]}] ELSE had    \* (not tracked where no stale wake can use it)
-  /\ UNCHANGED <<streams, counter, left, closed, joined, removed, delivered, wait, stale, npend, exh, nexh>>
+  /\ UNCHANGED <<streams, counter, left, closed, joined, removed, delivered, wait, stale, npend, exh, nexh, gv>>
   /\ UNCHANGED wcur
 
 Signalled(k) == HasEv(k) \/ (cur # <<>> /\ cur[2] = k)
@@ -186,25 +211,27 @@ L2 ==              \* Ready(Some): re-queue with a fresh ticket, put the stream 
      /\ heap' = heap \cup {<<t, k, NextDup(t, k)>>}
      /\ live' = [live EXCEPT ![k] = t + 1]            \* push_event: supersedes an event queued by a wake-up inside the window
      /\ streams' = streams \cup {k}
+     /\ sgen' = IF k \in streams /\ "putback_overwrites" \notin Dev THEN sgen ELSE [sgen EXCEPT ![k] = cgen]   \* a newer stream registered meanwhile is kept
      /\ delivered' = [delivered EXCEPT ![k] = @ + 1]
      /\ wait' = [j \in Keys |-> IF j = k THEN 0
                                ELSE IF j \in streams /\ avail[j] > 0 /\ HasEv(j) THEN wait[j] + 1 ELSE wait[j]]
   /\ counter' = counter + 1 /\ cur' = <<>> /\ pc' = "idle"
   /\ wcur' = FALSE                                   \* the call returns: its future (and waker) is finished
-  /\ UNCHANGED <<wslot, avail, left, closed, reg, fire, notified, joined, removed, stale, npend, exh, nexh, had>>
+  /\ UNCHANGED <<wslot, avail, left, closed, reg, fire, notified, joined, removed, stale, npend, exh, nexh, had, conn, cgen, nreins>>
 
 L3 ==              \* Pending: put the stream back; continue with the next event, or yield once every stream had a turn
   /\ pc = "l3"
   /\ streams' = IF "pending_not_put_back" \in Dev THEN streams ELSE streams \cup {cur[2]}
+  /\ sgen' = IF "pending_not_put_back" \in Dev \/ (cur[2] \in streams /\ "putback_overwrites" \notin Dev) THEN sgen ELSE [sgen EXCEPT ![cur[2]] = cgen]
   /\ cur' = <<>> /\ npend' = npend + 1
   /\ IF "no_yield" \notin Dev /\ npend' > Cardinality(streams')
        THEN /\ pc' = "parked" /\ notified' = (notified \/ heap # {})     \* cx.waker().wake_by_ref() if events remain; return Pending
        ELSE /\ pc' = "l1" /\ UNCHANGED notified
-  /\ UNCHANGED <<heap, counter, wslot, avail, left, closed, reg, fire, joined, removed, delivered, wait, stale, live, exh, nexh, had>>
+  /\ UNCHANGED <<heap, counter, wslot, avail, left, closed, reg, fire, joined, removed, delivered, wait, stale, live, exh, nexh, had, conn, cgen, nreins>>
   /\ UNCHANGED wcur
 
 Receiver == Begin \/ L1 \/ PollStream \/ L2 \/ L3
-Other == (\E k \in Keys : Insert(k) \/ Produce(k) \/ Close(k) \/ Fire(k) \/ StaleFire(k) \/ Remove(k)) \/ Exhaust
+Other == (\E k \in Keys : Insert(k) \/ Reinsert(k) \/ Produce(k) \/ Close(k) \/ Fire(k) \/ StaleFire(k) \/ Remove(k)) \/ Exhaust
 Next == Other \/ Receiver \/ Cancel
 
 Spec == Init /\ [][Next]_vars
@@ -221,9 +248,11 @@ NoLostWakeup ==
   (pc = "parked" /\ ~notified) =>
      \A k \in joined : (k \in streams /\ (avail[k] > 0 \/ closed[k])) => (reg[k] # 0 /\ fire[k])
 
-\* C05: a stream that can still yield messages is never dropped from the queue
+\* C05: a stream that can still yield messages is never dropped from the queue - and it is the stream of the connection
+\* that is registered under the key NOW (a superseded connection's stream must not take the newer one's place)
 NoStreamLost ==
-  \A k \in joined \ removed : (~closed[k] \/ avail[k] > 0) => (k \in streams \/ (cur # <<>> /\ cur[2] = k))
+  \A k \in joined \ removed : (~closed[k] \/ avail[k] > 0) =>
+       ((k \in streams /\ sgen[k] = conn[k]) \/ (cur # <<>> /\ cur[2] = k /\ cgen = conn[k]))
 
 \* a readable stream in the map always has a way to be noticed: a VALID event or a registered waker
 ReadyHasSignal == \A k \in joined : (k \in streams /\ avail[k] > 0) => (HasEv(k) \/ reg[k] # 0)
